@@ -536,6 +536,16 @@ pub fn mtu(tier: Tier, link_mtu: usize, path_limit: Option<usize>, emsgsize: Opt
     Driver { name: format!("mtu-{link_mtu}-path{path_limit:?}-emsg{emsgsize:?}-retx{probe_retx}"), cfg, prefix, alphabet, depth, state_cap: tier.pick(200_000, 3_000_000) }
 }
 
+/// The same over IPv6 (48 bytes of IP + UDP header, minimum MTU 1280): link MTU 1400, sizes 1212..1332.
+pub fn mtu_v6(tier: Tier, path_limit: Option<usize>, probe_retx: usize, depth: usize) -> Driver {
+    let mut d = mtu(tier, 1400, path_limit, None, probe_retx, depth);
+    d.cfg.ipv6 = true;
+    d.name = format!("mtu-v6-1400-path{path_limit:?}-retx{probe_retx}");
+    d.alphabet[0] = Act::Write(8000);
+    d.alphabet[6] = Act::Deliver(Pkt::DataLen { off: 0, len: 1250 });
+    d
+}
+
 /// An MTU probe behind ordinary segments, with selective ACKs that name the probe only.
 pub fn mtu_probe_sacked(tier: Tier, probe_retx: usize, depth: usize) -> Driver {
     let mut d = mtu(tier, 700, None, None, probe_retx, depth);
@@ -621,6 +631,7 @@ pub fn all_drivers(tier: Tier) -> Vec<Driver> {
     v.push(mtu_probe_sacked(tier, 0, 5));
     v.push(mtu_probe_sacked(tier, 1, 5));
     v.push(mtu_probe_sacked_bidir(tier, 0, 5));
+    v.push(mtu_v6(tier, Some(1300), 1, 5));
     v.push(nagle_mtu(tier, false, 1, 5));
     v.push(nagle_mtu(tier, true, 1, 5));
     v
